@@ -56,10 +56,14 @@ func builtinNumberToFixed(call FunctionCall) Value {
 	if call.This.IsNaN() {
 		return stringValue("NaN")
 	}
-	if value := call.This.float64(); math.Abs(value) >= 1e21 {
+	value := call.This.float64()
+	if value == 0 {
+		value = 0 // -0 is formatted like +0
+	}
+	if math.Abs(value) >= 1e21 {
 		return stringValue(floatToString(value, 64))
 	}
-	return stringValue(strconv.FormatFloat(call.This.float64(), 'f', int(precision), 64))
+	return stringValue(strconv.FormatFloat(value, 'f', int(precision), 64))
 }
 
 func builtinNumberToExponential(call FunctionCall) Value {
@@ -73,7 +77,11 @@ func builtinNumberToExponential(call FunctionCall) Value {
 			panic(call.runtime.panicRangeError("toExponential() precision must be between 0 and 20"))
 		}
 	}
-	return stringValue(strconv.FormatFloat(call.This.float64(), 'e', int(precision), 64))
+	value := call.This.float64()
+	if value == 0 {
+		value = 0 // -0 is formatted like +0
+	}
+	return stringValue(strconv.FormatFloat(value, 'e', int(precision), 64))
 }
 
 func builtinNumberToPrecision(call FunctionCall) Value {
@@ -88,7 +96,11 @@ func builtinNumberToPrecision(call FunctionCall) Value {
 	if 1 > precision || 21 < precision {
 		panic(call.runtime.panicRangeError("toPrecision() precision must be between 1 and 21"))
 	}
-	return stringValue(strconv.FormatFloat(call.This.float64(), 'g', int(precision), 64))
+	number := call.This.float64()
+	if number == 0 {
+		number = 0 // -0 is formatted like +0
+	}
+	return stringValue(strconv.FormatFloat(number, 'g', int(precision), 64))
 }
 
 func builtinNumberIsNaN(call FunctionCall) Value {
